@@ -344,7 +344,10 @@ func runC06(c *eng.Ctx) {
 	})
 	c.Rule("PROV", qT+".GC", func() {
 		f := c.Fn(qT + ".GC")
-		ack := c.One(f, eng.CallTo(qT+".AcknowledgedSeq"), "read of the queue ack").Instr.(*ssa.Call)
+		ack := c.One(f, eng.Any(eng.CallTo(qT+".AcknowledgedSeq"), func(_ *eng.Prog, in ssa.Instruction) bool {
+			fa, method, _ := eng.AtomicOp(in)
+			return fa != nil && method == "Load" && eng.FieldKeyOfAddr(fa) == qT+".acknowledgedSeq"
+		}), "read of the queue ack").Instr.(*ssa.Call)
 		facts := p.MustFacts(f)
 		for i, s := range c.Some(f, invokeOn("", "TruncatePages"), "TruncatePages calls") {
 			arg := eng.CallArgs(s.Instr.(*ssa.Call))[0]
